@@ -15,7 +15,7 @@ RULE = ("the C09 programs (1-3 threads, direct and OVNI_TMPDIR mode, generated r
         "every k; plus runs where every write() is a real short write (LD_PRELOAD shim).  Oracle on the observable "
         "outcome: (A) the program terminated abnormally or with a non-zero status and printed a diagnostic, or "
         "(B) it exited 0 and every thread has a complete copy (stream.obs equal to the expected flushed events and "
-        "stream.json with finished=1 in the same directory) in the final or temporary thread directory, and "
+        "stream.json with finished=1 in the same directory) in the final directory - or, only if a diagnostic was printed, in the temporary one - and "
         "ovniemu -l accepts the directory that holds them; and in every outcome (C) the events of each stream "
         "whose flushes all succeeded still exist in at least one file.  An ignored error with intact data is not "
         "a violation.  Non-trivial = the fault hit a data or metadata write or any call of the relocation path; "
@@ -87,6 +87,12 @@ def judge_outcome(ctx, case, r, full, what):
             if not where[t]:
                 raise Violation("(B) program exited 0 but thread %d has no complete copy (events + finished metadata) anywhere: %s"
                                 % (70 + t, what))
+        if any(r.tracedir not in where[t] for t in range(nth)) and not r.err.strip():
+            # the trace the user asked for (OVNI_TRACEDIR) is incomplete, the program
+            # returned normally and said nothing: a silent fault, even if the
+            # temporary directory still holds the data
+            raise Violation("(B) program exited 0 without any diagnostic but the final trace directory lacks a complete "
+                            "copy of some thread (data only in OVNI_TMPDIR): %s" % what)
         common = [x for x in roots if all(x in where[t] for t in range(nth))]
         if common:
             root = common[0]
